@@ -292,3 +292,31 @@ func (c *Conn) Pipeline(texts []string, wait time.Duration) []Outcome {
 	}
 	return outs
 }
+
+// DoPatient is Do for lines under test: when the wait expires it is repeated as long as there is evidence that
+// the machine and not the server is the reason - this process was not scheduled meanwhile (heartbeat), or a probe
+// through another connection of the same server (alive: its round trip time, negative = no answer) was slow too.
+// A line is reported as unanswered only after the server has answered somebody else promptly in the meantime.
+func (c *Conn) DoPatient(l *Line, wait time.Duration, alive func() time.Duration) Outcome {
+	StartHeartbeat()
+	t0 := time.Now()
+	o := c.Do(l, wait)
+	for round := 0; o.TimedOut && round < 5; round++ {
+		stall := MaxStallSince(t0)
+		probe := time.Duration(-1)
+		if alive != nil {
+			probe = alive()
+		}
+		next := wait
+		if stall < 500*time.Millisecond && probe >= 0 && probe < 2*time.Second {
+			next = 3 * time.Second // the server is there and so were we: a last short look, then it is a verdict
+			round = 5
+		}
+		o2 := c.Await(next)
+		o2.Untagged = append(o.Untagged, o2.Untagged...)
+		o2.Bye = o2.Bye || o.Bye
+		o2.Wait = time.Since(t0)
+		o = o2
+	}
+	return o
+}
